@@ -736,6 +736,14 @@ impl<'c, 'a> VisitMut for Structural<'c, 'a> {
                     self.rewrite_macro_expr(&em.mac)
                 }
             }
+            Expr::MethodCall(mc) if (mc.method == "give_up" || mc.method == "give_up_at") && matches!(mc.args.last(), Some(Expr::Lit(l)) if matches!(l.lit, syn::Lit::Str(_))) => {
+                // R8: message argument given as a string literal (`impl Into<String>`) -> opaque_string()
+                let mut m2 = mc.clone();
+                let n = m2.args.len();
+                m2.args[n - 1] = syn::parse_quote!(opaque_string());
+                self.cx.logr("R8", mc.method.span(), "string-literal message -> opaque_string()".into());
+                Some(Expr::MethodCall(m2))
+            }
             Expr::Lit(el) => {
                 // R29: byte-string literal -> reference to an array literal (Verus knows the length of b".." but not its bytes)
                 if let syn::Lit::ByteStr(bs) = &el.lit {
@@ -840,6 +848,36 @@ impl<'c, 'a> Structural<'c, 'a> {
         // R6: for (i, p) in S.iter().enumerate()
         let it = &*f.expr;
         let label = &f.label;
+        // R6b: for p in S.iter().rev()  ->  descending index loop
+        if let Expr::MethodCall(mc) = it {
+            if mc.method == "rev" && mc.args.is_empty() {
+                if let Expr::MethodCall(inner) = &*mc.receiver {
+                    if inner.method == "iter" && inner.args.is_empty() {
+                        let s = &inner.receiver;
+                        let mut body = f.body.clone();
+                        let marker = if !body.stmts.is_empty() && norm(body.stmts[0].to_token_stream()).starts_with("__vp_loop") {
+                            Some(body.stmts.remove(0))
+                        } else {
+                            None
+                        };
+                        let bind: Stmt = match &*f.pat {
+                            syn::Pat::Reference(r) => {
+                                let p = &r.pat;
+                                syn::parse_quote!(let #p = __vp_s[__vp_i];)
+                            }
+                            p => syn::parse_quote!(let #p = &__vp_s[__vp_i];),
+                        };
+                        self.cx.logr("R6", f.for_token.span, "for x in S.iter().rev() -> descending index loop over S".into());
+                        let stmts = &body.stmts;
+                        return Some(syn::parse_quote!({
+                            let __vp_s = &#s;
+                            let mut __vp_i = __vp_s.len();
+                            #label while __vp_i > 0 { #marker __vp_i -= 1; #bind #(#stmts)* }
+                        }));
+                    }
+                }
+            }
+        }
         if let Expr::MethodCall(mc) = it {
             if mc.method == "enumerate" && mc.args.is_empty() {
                 if let Expr::MethodCall(inner) = &*mc.receiver {
@@ -922,6 +960,15 @@ impl<'c, 'a> VisitMut for RuleApplier<'c, 'a> {
     }
 
     fn visit_expr_mut(&mut self, e: &mut Expr) {
+        // per-function substitutions (rule ids S<k>) see the unrewritten expression first (top-down)
+        let srules: Vec<Rule> = self.cx.rules.iter().filter(|r| r.id.starts_with('S') && r.id[1..].chars().all(|c| c.is_ascii_digit())).cloned().collect();
+        if !srules.is_empty() {
+            if let Some((ne, id)) = matcher::apply_rules_once(e, &srules) {
+                let line = first_line(e.to_token_stream());
+                self.cx.log.push(json!({"rule": id, "line": line, "what": format!("{} -> {}", one_line(e.to_token_stream()), one_line(ne.to_token_stream()))}));
+                *e = ne;
+            }
+        }
         visit_mut::visit_expr_mut(self, e);
         for _ in 0..8 {
             match matcher::apply_rules_once(e, self.cx.rules) {
@@ -962,11 +1009,17 @@ fn first_line(ts: TokenStream) -> usize {
 
 struct GhostInit<'p> {
     plan: &'p Value,
+    self_name: Option<String>,
 }
 impl<'p> VisitMut for GhostInit<'p> {
     fn visit_expr_struct_mut(&mut self, s: &mut syn::ExprStruct) {
         visit_mut::visit_expr_struct_mut(self, s);
-        let name = s.path.segments.last().map(|x| x.ident.to_string()).unwrap_or_default();
+        let mut name = s.path.segments.last().map(|x| x.ident.to_string()).unwrap_or_default();
+        if name == "Self" {
+            if let Some(n) = &self.self_name {
+                name = n.clone();
+            }
+        }
         if let Some(gf) = self.plan["ghost_fields"].get(&name).and_then(|v| v.as_array()) {
             if s.rest.is_none() {
                 for f in gf {
@@ -1261,6 +1314,14 @@ pub fn extract_fn(file: &syn::File, name: &str, opts: &Value, rules: &[Rule], pl
                                         idx = Some(i);
                                     }
                                 }
+                                // `let x = y.reader();` (LineReader::reader is `&mut self.reader`, verified in unit text)
+                                if let Expr::MethodCall(mc) = &*init.expr {
+                                    if mc.method == "reader" && mc.args.is_empty() {
+                                        let rc = &mc.receiver;
+                                        place = Some(syn::parse_quote!(#rc.reader));
+                                        idx = Some(i);
+                                    }
+                                }
                             }
                         }
                     }
@@ -1293,7 +1354,7 @@ pub fn extract_fn(file: &syn::File, name: &str, opts: &Value, rules: &[Rule], pl
         tm2.visit_block_mut(&mut block);
         tm.log.extend(tm2.log);
         // ghost fields
-        GhostInit { plan }.visit_block_mut(&mut block);
+        GhostInit { plan, self_name: f.self_ty.as_ref().and_then(last_ident_of_type) }.visit_block_mut(&mut block);
         // expression rules
         RuleApplier { cx: &mut cx }.visit_block_mut(&mut block);
         // R15: mut params
